@@ -37,6 +37,10 @@ type Server struct {
 	Version string
 	// Echo makes the server echo every byte the client writes (like a pty with echo on).
 	Echo bool
+	// NoEchoMark: do not put a message mark after an echoed request, so that one transport read may
+	// carry the tail of the echo together with (the beginning of, or the whole of) the reply. The
+	// echo is the client's own request, not a server message.
+	NoEchoMark bool
 	// OnMsg is called (conn mutex held) for every complete client message.
 	OnMsg func(s *Server, c *devsim.Conn, m *Msg)
 
@@ -135,8 +139,8 @@ func (s *Server) deliver(c *devsim.Conn, p []byte, n int, framing string, hello 
 			s.Version = "1.0"
 		}
 	}
-	if s.Echo {
-		c.Mark() // an echoed request is one server message
+	if s.Echo && !s.NoEchoMark {
+		c.Mark() // by default an echoed request is delivered apart from what follows
 	}
 	if s.OnMsg != nil {
 		s.OnMsg(s, c, m)
